@@ -115,7 +115,6 @@ func (e *Engine) specType(name string, se *SpecEnv) types.Type {
 			}
 			f = f.Parent()
 		}
-		break
 	}
 	if strings.HasPrefix(name, "seq_") {
 		return nil
@@ -140,8 +139,8 @@ func (e *Engine) lookupName(name string, se *SpecEnv) (Val, bool) {
 			return v, true
 		}
 	}
-	if se.frNames != nil && se.frNames != se.fr {
-		if nb, ok := se.frNames.names[name]; ok {
+	for fN := se.frNames; fN != nil && fN != se.fr; fN = fN.parent {
+		if nb, ok := fN.names[name]; ok {
 			if nb.IsAddr {
 				loc := e.locOf(nb.V)
 				if loc.Kind != LocCell {
